@@ -116,3 +116,12 @@ impl HeaderMap {
         self.inner.remove(hash)
     }
 }
+
+/// verification hook (off unless built with `--cfg ckb_verif`): run the timer-driven memory-limit step now
+#[cfg(ckb_verif)]
+impl HeaderMap {
+    /// spill the oldest in-memory entries beyond the limit to the backend (what the 5 s timer does)
+    pub fn verif_limit_memory(&self) {
+        self.inner.limit_memory()
+    }
+}
